@@ -19,7 +19,7 @@ RULE = ('Hypothesis-generated segment sequences. (a) well-nested shapes: 1..3 in
         'consistent, one LX number of an 837 group changed in 40%: service-line errors in the error tree = recount (837 groups '
         'only), and no envelope error. Non-trivial = >=2 sets or groups, or '
         '>=1 perturbation; distinct by digest of the segment list.')
-ASSUMPTIONS = ['HL-parent verdicts are compared only up to the first bad parent or second root HL of a set (recovery afterwards is unspecified)',
+ASSUMPTIONS = ['HL-parent verdicts are compared up to a second root HL of a set (what counts as the current path afterwards is unspecified); after a bad parent the open levels stay as they were',
                'LX01 with leading zeros is not generated', 'delimiters are ~ * : (C12 covers others)']
 
 ISA_TMPL = ['00', ' ' * 10, '00', ' ' * 10, 'ZZ', 'SENDER'.ljust(15), 'ZZ', 'RECEIVER'.ljust(15), '040101', '1230', 'U', '00401',
@@ -292,7 +292,11 @@ def strategies(tier):
         return segs
 
     def bad_count(draw, true):
-        return draw(st.sampled_from([str(true + 1), str(max(0, true - 1)) if true > 0 else '7', 'X', '', '0%d' % true if False else str(true + 10), '-1']))
+        # wrong numbers, non-numbers, and spellings of the TRUE number that are not X12 numerics (a plus sign, blanks, an underscore,
+        # digits of another script) - only '0<n>' is the true number spelled with a leading zero
+        return draw(st.sampled_from([str(true + 1), str(max(0, true - 1)) if true > 0 else '7', 'X', '', str(true + 10), '-1',
+                                     '+%d' % true, ' %d' % true, '%d ' % true, '0_%d' % true, ''.join(chr(0xFF10 + int(c)) for c in str(true)),
+                                     '0%d' % true]))
 
     @st.composite
     def nested(draw):
